@@ -516,7 +516,19 @@ func checkC02Extras(c *BuildCase, f string, d *Decoded, vs *vlist) {
 		if has != (len(wantTrig) > 0) {
 			vs.add("C02.deb.triggers", f, "triggers member present=%v, %d triggers configured", has, len(wantTrig))
 		} else if has {
-			got := strings.Split(strings.TrimSuffix(string(tm.Data), "\n"), "\n")
+			// deb-triggers(5): one directive per line; blanks at the edges, empty lines and everything after '#' are
+			// discarded; no order among directives is defined, so the directives are compared as a multiset
+			var got []string
+			for _, l := range strings.Split(string(tm.Data), "\n") {
+				if i := strings.IndexByte(l, '#'); i >= 0 {
+					l = l[:i]
+				}
+				if l = strings.TrimSpace(l); l != "" {
+					got = append(got, strings.Join(strings.Fields(l), " "))
+				}
+			}
+			sort.Strings(got)
+			sort.Strings(wantTrig)
 			if !eqStrings(got, wantTrig) {
 				vs.add("C02.deb.triggers", f, "triggers %q, configured %q", got, wantTrig)
 			}
